@@ -27,7 +27,7 @@ def check_compress(case):
     n, name = case["n"], case["connectivity"]
     ops_in = [(o[0], tuple(o[1])) for o in case["ops"]]
     fails = []
-    qc = libif.build_circuit(n, ops_in)
+    qc = libif.build_circuit(n, ops_in, case.get("registers"), case.get("metadata"))
     before = snapshot(qc)
     gens = members.group_of_circuit(n, ops_in)
     orbit = lc.orbit_of(gens, n)
